@@ -1276,6 +1276,9 @@ pub struct C04CallsCase {
     /// the panic is caught and the history goes on with the same dispatcher
     #[serde(default)]
     pub faults: Vec<(u8, u16, u8)>,
+    /// call indices before which the world value is moved to another address
+    #[serde(default)]
+    pub moves: Vec<u8>,
 }
 
 impl Prop for C04Calls {
@@ -1287,7 +1290,7 @@ impl Prop for C04Calls {
         "C04"
     }
     fn rule(&self) -> &'static str {
-        "plans (nested batches with custom / MultiDispatcher controllers, thread-local systems incl. inside batches) x a generated sequence of 1..8 calls drawn from dispatch / dispatch_par / dispatch_seq / dispatch_thread_local / RunNow::run_now on ONE dispatcher x pool size 1..16 x per-system delays; oracle after every call: counter of every ordinary system == number of calls so far that run ordinary systems, every top-level thread-local counter == number of dispatch + dispatch_thread_local calls, inner systems == enclosing batch runs x its dispatch count, nothing is left borrowed; 5/16 of the histories arm one or two calls with a system that panics (caught): counting restarts after such a call and every later call must again run everything exactly once; non-trivial = >= 3 calls of >= 2 different kinds on a plan with >= 2 stages or a batch; distinct = case hash"
+        "plans (nested batches with custom / MultiDispatcher controllers, thread-local systems incl. inside batches) x a generated sequence of 1..8 calls drawn from dispatch / dispatch_par / dispatch_seq / dispatch_thread_local / RunNow::run_now on ONE dispatcher x pool size 1..16 x per-system delays; oracle after every call: counter of every ordinary system == number of calls so far that run ordinary systems, every top-level thread-local counter == number of dispatch + dispatch_thread_local calls, inner systems == enclosing batch runs x its dispatch count, nothing is left borrowed; before 1/4 of the histories' calls the world value is moved to another address; 5/16 of the histories arm one or two calls with a system that panics (caught): counting restarts after such a call and every later call must again run everything exactly once; non-trivial = >= 3 calls of >= 2 different kinds on a plan with >= 2 stages or a batch; distinct = case hash"
     }
     fn gen(&self, src: &mut Src) -> C04CallsCase {
         let threads = [1u8, 2, 3, 4, 8, 16][src.pick(6)];
@@ -1311,12 +1314,19 @@ impl Prop for C04Calls {
                 faults.push((src.pick(n) as u8, src.raw(), 1 + src.pick(3) as u8));
             }
         }
+        let mut moves = vec![];
+        if src.chance(4, 16) {
+            for _ in 0..1 + src.pick(2) {
+                moves.push(src.pick(n) as u8);
+            }
+        }
         C04CallsCase {
             plan,
             calls,
             threads,
             jitter,
             faults,
+            moves,
         }
     }
     fn check(&self, case: &C04CallsCase, lane: usize, st: &mut Stats) -> Result<(), Fail> {
@@ -1328,11 +1338,19 @@ impl Prop for C04Calls {
         for i in 0..flat.sys.len() {
             b.ctx.jitter_run[i].store((case.jitter.get(i).cloned().unwrap_or(0) % 4) as u32, SeqCst);
         }
-        let world = fresh_world();
+        let mut world = Box::new(fresh_world());
         b.ctx.reset_counters();
         let (mut ord, mut tl) = (0u32, 0u32);
         let mut recovered = 0;
         for (k, entry) in case.calls.iter().enumerate() {
+            if case.moves.iter().any(|m| *m as usize == k) {
+                // a World is an ordinary movable value: the new allocation exists before the old one
+                // is freed, so the address really changes
+                let mut nb = Box::new(World::empty());
+                std::mem::swap(&mut *nb, &mut *world);
+                world = nb;
+                st.class("world_moved_between_calls");
+            }
             let armed: Vec<usize> = case
                 .faults
                 .iter()
@@ -1401,7 +1419,7 @@ impl Prop for C04Calls {
             })
             .collect();
         for i in (0..case.calls.len()).rev() {
-            if case.calls.len() > 1 && !case.faults.iter().any(|f| f.0 as usize >= i) {
+            if case.calls.len() > 1 && !case.faults.iter().any(|f| f.0 as usize >= i) && !case.moves.iter().any(|m| *m as usize >= i) {
                 let mut c = case.clone();
                 c.calls.remove(i);
                 out.push(c);
@@ -1410,6 +1428,11 @@ impl Prop for C04Calls {
         for i in 0..case.faults.len() {
             let mut c = case.clone();
             c.faults.remove(i);
+            out.push(c);
+        }
+        for i in 0..case.moves.len() {
+            let mut c = case.clone();
+            c.moves.remove(i);
             out.push(c);
         }
         out
